@@ -1,7 +1,7 @@
 ----------------------------- MODULE MC_Builder -----------------------------
 EXTENDS Builder
 MCSubs == { <<>>, <<"m">> }
-MCAllowed == { {1, 2, 3}, {2}, {1, 3} }
+MCAllowed == { {1, 2, 3}, {2}, {1, 3}, {2, 3} }
 MCAllowedQ == { {1, 2}, {2} }
 MCLocalRels == { [ups |-> 0, names |-> <<"m">>], [ups |-> 1, names |-> <<>>], [ups |-> 2, names |-> <<>>] }
 MCLocalRelsQ == { [ups |-> 0, names |-> <<"m">>], [ups |-> 1, names |-> <<>>] }
@@ -9,6 +9,10 @@ MCLocalRelsQ == { [ups |-> 0, names |-> <<"m">>], [ups |-> 1, names |-> <<>>] }
 MCAdds == { Art(Rem("P1", <<>>), "F1"), Art(Rem("P2", <<"m">>), "F1"), Art(Reg("R1", <<>>, {1, 2}), "F1"), Art(Reg("R1", <<"m">>, {2}), "F1") }
 MCAdds3 == MCAdds \cup { Art(Rem("P1", <<>>), "F2"), Art(Rem("P3", <<>>), "F1"), Art(Reg("R2", <<>>, {1, 2, 3}), "F2") }
 MCSubs1 == { <<>> }
+\* several finders at one location: a relative self-reference ("./") handed to another finder, a registry hop with another finder
+MCLocalRelsSelf == { [ups |-> 0, names |-> <<>>], [ups |-> 0, names |-> <<"m">>] }
+MCAllowed1 == { {1} }
+MCAddsF == { Art(Rem("P1", <<>>), "F1"), Art(Rem("P1", <<>>), "F2"), Art(Reg("R1", <<>>, {1}), "F1") }
 MCLocalRels0 == { [ups |-> 0, names |-> <<"m">>] }      \* relative dependencies that cannot fail to resolve
 \* version selection universe: several requests against one registry package
 MCAddsV == { Art(Reg("R1", <<>>, al), "F1") : al \in MCAllowed } \cup { Art(Reg("R1", <<"m">>, {2}), "F1") }
